@@ -96,6 +96,11 @@ EXC_TYPES = {
 }
 
 
+import collections
+
+NT = collections.namedtuple("NT", ["a", "b"])
+
+
 class TermFn:
     """Injective term constructor: f(*a, **kw) == (name, a, sorted(kw)).
 
@@ -217,6 +222,10 @@ class RefEval:
             return {tokey(k): self.ev(v) for k, v in e["dict"]}
         if "rawdict" in e:
             return {tokey(k): self.ev(v) for k, v in e["rawdict"]}
+        if "rawdict_ts" in e:
+            return {tokey(k): self.ev(v) for k, v in e["rawdict_ts"]}
+        if "nt" in e:
+            return NT(self.ev(e["nt"][0]), self.ev(e["nt"][1]))
         raise ValueError(f"bad expr {e}")
 
     # node indices referenced directly by node i's body
@@ -261,12 +270,12 @@ def _collect_refs(e, out, ext=False):
         if ext:
             out.add(ext_key(e["ext"]))
         return
-    for k in ("args", "list", "tuple", "set"):
+    for k in ("args", "list", "tuple", "set", "nt"):
         for x in e.get(k) or ():
             _collect_refs(x, out, ext)
     for v in (e.get("kwargs") or {}).values():
         _collect_refs(v, out, ext)
-    for k in ("dict", "rawdict"):
+    for k in ("dict", "rawdict", "rawdict_ts"):
         for _, v in e.get(k) or ():
             _collect_refs(v, out, ext)
 
@@ -286,7 +295,7 @@ def is_callable_node(body):
 
 def count_calls(e):
     n = 1 if "call" in e else 0
-    for k in ("args", "list", "tuple", "set"):
+    for k in ("args", "list", "tuple", "set", "nt"):
         for x in e.get(k) or ():
             n += count_calls(x)
     for v in (e.get("kwargs") or {}).values():
@@ -377,6 +386,11 @@ class Build:
             return (dict, [[tokey(k), self.legacy(v)] for k, v in e["dict"]])
         if "rawdict" in e:
             return {tokey(k): self.legacy(v) for k, v in e["rawdict"]}
+        if "rawdict_ts" in e:
+            # raw dict argument holding task objects / TaskRefs (see DESIGN 8.1)
+            return {tokey(k): self.targ(v) for k, v in e["rawdict_ts"]}
+        if "nt" in e:
+            return NT(self.legacy(e["nt"][0]), self.legacy(e["nt"][1]))
         raise ValueError(f"bad expr {e}")
 
     # ---- task-spec objects -------------------------------------------------
@@ -426,9 +440,13 @@ class Build:
             return Tuple(tuple(self.targ(x) for x in e["tuple"]))
         if "set" in e:
             return Set(*[self.targ(x) for x in e["set"]])
-        if "dict" in e or "rawdict" in e:
-            items = e.get("dict") or e.get("rawdict") or []
+        if "dict" in e or "rawdict" in e or "rawdict_ts" in e:
+            items = e.get("dict") or e.get("rawdict") or e.get("rawdict_ts") or []
             return Dict({tokey(k): self.targ(v) for k, v in items})
+        if "nt" in e:
+            from dask._task_spec import parse_input
+
+            return parse_input(NT(self.targ(e["nt"][0]), self.targ(e["nt"][1])))
         raise ValueError(f"bad expr {e}")
 
 
